@@ -165,7 +165,10 @@ def handleK (op : String) (args res : List String) : Option Verdict :=
         let o := lccForward (⟨⟨a⟩, ⟨f⟩⟩ : Ell (FK p)) (lccOf p m) ⟨sphi⟩ ⟨cphi⟩ ⟨lam⟩
         [o.x.v, o.y.v, o.gamma.v / degF, o.k.v]
       let oa := run 0; let ob := farL oa [run 1, run 2, run 3, run 4, run 5]
-      let sc := 32 * epsF * (Float.abs (oa.getD 0 0) + Float.abs (oa.getD 1 0))
+      -- where 2 nc < 1 the code forms drho as a difference of two numbers of size rho0 = nrho0/n (one ulp of either is eps·rho0)
+      let nn := m.getD 1 0; let ncc := m.getD 2 0
+      let rho0 := if nn != 0 && 2 * ncc < 1 then Float.abs (m.getD 11 0 / nn) else 0
+      let sc := 32 * epsF * (Float.abs (oa.getD 0 0) + Float.abs (oa.getD 1 0)) + 16 * epsF * rho0
       checks "LambertConformalConic::Forward" (zip4 ["x", "y", "gamma", "k"] [x, y, g, k] oa ob fun nm => if nm == "x" || nm == "y" then sc else 0)
     | _, _ => .bad "parse"
   | "albfwd" => some <|
